@@ -12,6 +12,9 @@ def run(prop, tier, seed, work):
     if prop in ("C03", "C09", "C10", "C11"):
         import checks_decode
         return checks_decode.run(prop, tier, seed, work)
+    if prop == "C05":
+        import checks_malformed
+        return checks_malformed.run(prop, tier, seed, work)
     raise vlib.MachineryError("no check for " + prop)
 
 
